@@ -27,6 +27,10 @@ def config(seed):
         "MM": {"class": "MarketMakerAgent", "numAgents": 1, "markets": ["SpotA"], "assetVolume": 50, "cashAmount": 10000, "targetMarket": "SpotA", "netInterestSpread": 0.02, "orderTimeLength": 2},
         "Shock": {"class": "FundamentalPriceShock", "target": "SpotB", "triggerTime": 5, "priceChangeRate": -0.1, "shockTimeLength": 2},
     }
+    if seed % 2 == 1:
+        # optional keys left out: a run must not fill in defaults in the caller's settings object either
+        del cfg["simulation"]["fundamentalCorrelations"]
+        del cfg["MM"]["orderTimeLength"]
     return cfg
 
 
